@@ -37,6 +37,13 @@ func genScenarios(r *rng) []*scenario {
 					out = append(out, genOutbox(r, ty, k))
 				}
 			}
+		case "effects":
+			for _, ty := range []string{"Update", "Delete", "Add", "Remove", "Like", "Block"} {
+				for i := 0; i < *pubN; i++ {
+					k++
+					out = append(out, genEffects(r, ty, k))
+				}
+			}
 		case "deliver":
 			for i := 0; i < *pubN; i++ {
 				k++
